@@ -2044,7 +2044,8 @@ class Builder:
                     # Otherwise: free the qubits.
                     if not params.sequential:
                         for q in qubits:
-                            q.free()
+                            # (the handles stay active: the next attempt re-creates them)
+                            self._build_cmds_qfree(q.qubit_id)
 
                 loop.set_cleanup_code(cleanup)
 
@@ -2084,7 +2085,8 @@ class Builder:
                     # Otherwise: free the qubits.
                     if not params.sequential:
                         for q in qubits:
-                            q.free()
+                            # (the handles stay active: the next attempt re-creates them)
+                            self._build_cmds_qfree(q.qubit_id)
 
                 loop.set_cleanup_code(cleanup)
 
